@@ -149,7 +149,9 @@ def buffered_impl(ctx, rule, F, cfg):
                 ctx.ob(rule, site + "[%s]:one-advance" % tag, False, "the position is advanced %d times on one exit" % len(pos), config=cfg)
                 continue
             if not pos:
-                ctx.ob(rule, site + "[%s]:advance" % tag, not cons, "an exit that consumed input must advance the position (consumed %s)" % (ca,), config=cfg)
+                zero0 = {e[2][2][3] for e in body if e[0] == "switch" and e[2][0] == "bin" and e[2][1] == "Eq" and e[2][2][0] == "phi" and e[2][3][0] == "c" and e[2][3][2] == 0 and e[3] != 0}
+                owed = sorted(c for c in counters if c not in zero0) if hi else []
+                ctx.ob(rule, site + "[%s]:advance" % tag, not cons and not owed, "an exit that consumed input, or that leaves a loop which kept a running count of consumed bytes, must advance the position (consumed %s, running counters not yet added %s)" % (ca, owed), config=cfg)
                 continue
             v = pos[0][3]
             ok = v[0] == "bin" and v[1] == "Add"
